@@ -47,6 +47,11 @@ DESCR = {
               "non-integer cost ratios whose rounded value is a binomial coefficient (e.g. wd=3.5, rd=2, uf=1): wrong period; every integer cost vector is unaffected"),
 }
 
+_p2 = os.path.join(HERE, "seed_descr2.json")
+if os.path.exists(_p2):
+    with open(_p2) as _f:
+        DESCR.update({k: tuple(v) for k, v in json.load(_f).items()})
+
 
 def main():
     rows = []
@@ -78,7 +83,7 @@ def main():
                 "demo_with_change": rd("demo_after.txt").strip().splitlines()[-1:] if rd("demo_after.txt") else [],
                 "test_suite_with_change": rd("tests.txt").strip(),
             },
-            "ran": "harness/seed_eval.sh %s /tmp/mut/%s %s  (demo before/after, pytest, then all 19 quick checks with "
+            "ran": "harness/seed_eval.sh %s <scratch worktree of %s> %s  (demo before/after, pytest, then all 19 quick checks with "
                    "VERIF_REPO pointing at a worktree holding /repo HEAD + patch.diff)" % (prop, prop, sid),
             "checks": checks,
             "caught_by_own_property_check": checks.get(prop, "?"),
